@@ -58,6 +58,23 @@ func runStakingHistory(r *Recorder, rng *rand.Rand, accts []*Account, nOps int) 
 						r.Redelegate(who, val, dst, amt)
 					}
 				}
+			case x < 66:
+				// a node that holds the super role re-declares itself on ANOTHER validator, with or without
+				// a status (a reset without status keeps the stored one)
+				for _, n := range nodes {
+					nd, found := c.App.NodeKeeper.GetNode(c.deliverCtx(), n.Bech())
+					if !found || nd.Role != 1 {
+						continue
+					}
+					for _, ov := range c.ValAddrs {
+						if ov.String() != nd.Validator {
+							st := []uint32{0, 0, 15}[rng.Intn(3)]
+							r.NodeReset(n, "", st, ov.String(), nil)
+							break
+						}
+					}
+					break
+				}
 			case x < 86:
 				n := nodes[rng.Intn(len(nodes))]
 				statuses := []uint32{15, 15, 13, 0, 47}
